@@ -23,10 +23,20 @@ const MAX: u32 = 7609;
 pub struct Endpoint {
     pub writes: Vec<Vec<u8>>,
     pub flushes: usize,
+    /// refuse this write call (0-based, counted over all calls) once
+    pub fail_at: Option<(usize, std::io::ErrorKind)>,
+    pub calls: usize,
 }
 
 impl Write for Endpoint {
     fn write(&mut self, buf: &[u8]) -> std::io::Result<usize> {
+        let call = self.calls;
+        self.calls += 1;
+        if let Some((at, kind)) = self.fail_at {
+            if at == call {
+                return Err(std::io::Error::new(kind, "simulated endpoint fault"));
+            }
+        }
         self.writes.push(buf.to_vec());
         Ok(buf.len())
     }
@@ -137,13 +147,21 @@ impl Family for C16Family {
                         1 => Some(0xff),
                         _ => None,
                     },
+                    write_fault: None,
                 })
-                .collect();
+                .collect::<Vec<HidMsg>>();
+            // one channel in eight meets an endpoint that refuses one write of one message
+            let mut msgs = msgs;
+            let torn = !exhaustive && r.chance(1, 8);
+            if torn {
+                let i = r.usize(msgs.len());
+                msgs[i].write_fault = Some((r.below(4) as u32, r.below(3) as u8));
+            }
             channels.push(HidChannel {
                 cid,
                 msgs,
                 stray_before: if !exhaustive && r.chance(1, 5) { r.range(1, 2) as u8 } else { 0 },
-                stray_after: if !exhaustive && r.chance(1, 5) { r.range(1, 2) as u8 } else { 0 },
+                stray_after: if !exhaustive && !torn && r.chance(1, 5) { r.range(1, 2) as u8 } else { 0 },
             });
         }
         let schedule = crate::gen::gen_schedule(&mut r, 600);
@@ -201,7 +219,7 @@ impl Family for C16Family {
                 out.push(Violation { property: "C16".into(), clause, detail, scenario: scn.clone(), log_hash: 0 });
             }
         };
-        for p in ["received_message_sent_again", "payload_exactly_fills_init_packet", "continuation_exactly_fills_packet", "max_accepted_length", "oversize_refused", "length_7609_refused_by_sender", "stray_continuation_ignored", "two_multi_packet_messages_interleaved", "128_continuation_packets", "exhaustive_interleaving_run"] {
+        for p in ["received_message_sent_again", "payload_exactly_fills_init_packet", "continuation_exactly_fills_packet", "max_accepted_length", "oversize_refused", "length_7609_refused_by_sender", "stray_continuation_ignored", "two_multi_packet_messages_interleaved", "128_continuation_packets", "exhaustive_interleaving_run", "endpoint_refused_a_write"] {
             stats.declare_probe(p);
         }
         stats.runs += 1;
@@ -237,6 +255,37 @@ impl Family for C16Family {
                             continue;
                         }
                         let mut ep = Endpoint::default();
+                        if let Some((at, kind)) = m.write_fault {
+                            // the endpoint refuses one write: send must report it (never Ok with a hole in
+                            // the stream) and what it did write is a prefix of the fault-free stream
+                            let n = payload.len();
+                            let expect_packets = if n <= 57 { 1 } else { 1 + (n - 57).div_ceil(59) };
+                            if (at as usize) < expect_packets {
+                                let kind = match kind {
+                                    0 => std::io::ErrorKind::Interrupted,
+                                    1 => std::io::ErrorKind::WouldBlock,
+                                    _ => std::io::ErrorKind::BrokenPipe,
+                                };
+                                let mut control = Endpoint::default();
+                                let control_ok = Message::new(ch.cid, cmd, &payload).map(|m2| m2.send(&mut control).is_ok()).unwrap_or(false);
+                                ep.fail_at = Some((at as usize, kind));
+                                let res = msg.send(&mut ep);
+                                stats.probe("endpoint_refused_a_write");
+                                stats.fault("endpoint_write_error", 1);
+                                if res.is_ok() {
+                                    fail("write-error-swallowed", format!("the endpoint refused write {at} of a {n}-byte message ({kind:?}) but send returned Ok after writing {} of {expect_packets} packets", ep.writes.len()));
+                                }
+                                if control_ok && (ep.writes.len() > control.writes.len() || ep.writes[..] != control.writes[..ep.writes.len()]) && res.is_err() {
+                                    fail("write-error-garbled", format!("after the endpoint refused write {at} ({kind:?}) the {} packets on the wire are not a prefix of the fault-free stream", ep.writes.len()));
+                                }
+                                if cid_bytes.is_none() {
+                                    cid_bytes = ep.writes.first().map(|w| w[..4].try_into().unwrap());
+                                }
+                                // the torn message reaches the receiver as far as it was written; nothing may come of it
+                                msg_packets.push(ep.writes.into_iter().map(|bytes| Packet { chan: ci, bytes, of_msg: None }).collect());
+                                continue;
+                            }
+                        }
                         if let Err(e) = msg.send(&mut ep) {
                             fail("send-error", format!("send failed on an infallible writer: {e}"));
                             continue;
